@@ -4,6 +4,7 @@
 mod drive;
 mod framing;
 mod model;
+mod server;
 mod sock;
 
 fn main() {
@@ -18,6 +19,8 @@ fn main() {
     match args[1].as_str() {
         "framing-enum" => framing::cmd_enum(rest),
         "framing-rand" => framing::cmd_rand(rest),
+        "server-enum" => server::cmd_enum(rest),
+        "server-rand" => server::cmd_rand(rest),
         other => {
             eprintln!("unknown command {other}");
             std::process::exit(2);
